@@ -44,7 +44,8 @@ def sampler_axioms():
 class AState(Symbolic):
     """a leaspy State seen through its contracts (C01)"""
 
-    def __init__(self, cx, n_ind, auto_fork=True, ind_shape_rest=()):
+    def __init__(self, cx, n_ind, auto_fork=True, ind_shape_rest=(), clusters=None):
+        self.clusters = clusters      # mixture model: the regularity terms carry a cluster axis of this (concrete) size
         self.I = z3.Const("I0", View)
         self.I0 = self.I
         self.fork = None
@@ -66,7 +67,7 @@ class AState(Symbolic):
         return k in (State, object)
 
     # --- contract of State.__getitem__: returns Sem(n, I); the view is unchanged
-    def read(self, it, k, node=None):
+    def read(self, it, k, node=None, weighted=False):
         n, s = self._name(k)
         cx = it.cx
         cx.prove(f"call State.__getitem__({s}): value defined (every needed independent value is set)", Sem(n, self.I) != NONE)
@@ -74,12 +75,19 @@ class AState(Symbolic):
         if self.fork is not None:
             self.fork["reads"].append(s)
         v = Sem(n, self.I)
+        if self.clusters and s in (f"nll_regul_{VAR}_ind", "nll_regul_ind_sum_ind"):
+            # mixture model: one regularity term per individual and cluster
+            t = STensor((self.n_ind, self.clusters), lambda idx, v=v: elem(v, idx[0], idx[1]), "real", name=s)
+            if s == "nll_regul_ind_sum_ind" and weighted:
+                from leaspy.utils.weighted_tensor import WeightedTensor
+                return SymObj(WeightedTensor, dict(value=t, weight=None))
+            return t
         if s is not None and s.endswith("_ind"):
             return STensor((self.n_ind,), lambda idx, v=v: elem(v, idx[0], z3.IntVal(0)), "real", name=s)
         return STensor((), lambda idx, v=v: sc(v), "real", name=s or "value")
 
     def _getitem(self, it, k, node=None):
-        return self.read(it, k, node)
+        return self.read(it, k, node, weighted=True)       # state[...] gives the stored (possibly weighted) value
 
     def _getattr(self, it, name, node=None):
         if name == "put":
@@ -144,7 +152,7 @@ class AState(Symbolic):
         M = z3.Const(cx.fresh_name("M"), z3.ArraySort(z3.IntSort(), z3.BoolSort()))
         i = z3.Int(cx.fresh_name("i"))
         e = subset.fn((i,))
-        cx.assume(z3.ForAll([i], M[i] == (e if subset.dtype == "bool" else e != 0)))
+        cx.assume(z3.ForAll([i], M[i] == (e if subset.dtype == "bool" else e != 0), patterns=[M[i]]))      # unfolded wherever the mask is read
         n = f["name"]
         self.I = z3.Store(self.I, n, BlendM(M, f["before"][n], self.I[n]))
         self.ops.append(("revert", M, self.I))
@@ -192,19 +200,21 @@ class IndividualSample(Spec):
     iff U_i < exp(-((R_i' - R_i) * beta + (A_i' - A_i))); rejected rows are restored exactly (revert(~accepted))
     and accepted rows keep the proposal; one uniform draw per individual whatever alpha is."""
     target = IND + ".sample"
+    ob_meta = {"purify_first": True}      # code and statement apply exp to arguments equal up to linear rearrangement of the same products
 
     def __init__(self, clauses):
         self.clauses = clauses
 
     def configs(self):
-        return [dict(rank=0), dict(rank=1)]
+        # clusters: the mixture model (regularity per individual and cluster, weighted by the individual's responsibilities)
+        return [dict(rank=0), dict(rank=1), dict(rank=0, clusters=2), dict(rank=1, clusters=2)]
 
     def background(self, cx):
         return sampler_axioms()
 
     def setup(self, cx, cfg):
         s, n, rest, std = make_ind_sampler(cx, cfg["rank"])
-        state = AState(cx, n)
+        state = AState(cx, n, clusters=cfg.get("clusters"))
         beta = cx.real("beta")
         return dict(args=(s, state), kwargs=dict(temperature_inv=beta), self=s, state=state, n=n, rest=rest,
                     std=STensor(std.shape_, std.fn, std.dtype, "std@entry"),      # the scales at entry (sample() adapts them at the end)
@@ -254,10 +264,21 @@ class IndividualSample(Spec):
         def A(I_, j):
             return elem(Sem(nm("nll_attach_ind"), I_), j, z3.IntVal(0))
 
+        K = st["cfg"].get("clusters")
+
         def R(I_, j):
-            return elem(Sem(nm(f"nll_regul_{VAR}_ind"), I_), j, z3.IntVal(0))
+            if not K:
+                return elem(Sem(nm(f"nll_regul_{VAR}_ind"), I_), j, z3.IntVal(0))
+            # mixture: sum_k r_jk(I) * regul_jk(I), r = softmax_k(max(-nll_regul_ind_sum_ind[j, k], -100)) IN THE SAME VIEW
+            from pyvc.tensor import softmax_along
+            tot, reg = Sem(nm("nll_regul_ind_sum_ind"), I_), Sem(nm(f"nll_regul_{VAR}_ind"), I_)
+            neg = STensor((n, K), lambda idx: z3.If(-elem(tot, idx[0], idx[1]) < -100, z3.RealVal(-100), -elem(tot, idx[0], idx[1])), "real")
+            resp = softmax_along(cx.it, neg, 1)
+            from pyvc.tensor import tensor_binop, reduce_sum
+            regt = STensor((n, K), lambda idx: elem(reg, idx[0], idx[1]), "real")
+            return reduce_sum(cx.it, tensor_binop(cx.it, "mul", resp, regt), 1).fn((j,))     # written with the engine's own sum (same normal form)
         D = (R(Iprop, i) - R(I0, i)) * beta + (A(Iprop, i) - A(I0, i))
-        acc_i = Uf(i) < F_EXP(-D)
+        acc_i = Uf(i) < F_EXP(z3.ToReal(z3.IntVal(-1)) * D)      # exp(-D), written as the product by -1
         if "C03" in self.clauses:
             res.append(("proposal = std_i * N(0,1) entry-wise, zero-mean, on the individual's own row",
                         z3.ForAll([i] + rows, z3.Implies(z3.And(0 <= i, i < n),
